@@ -75,8 +75,8 @@ theorem typed_slice_prop (t : Ty) (xs : List GoVal) (k : Bytes) :
     propertyValue (.slice t xs) k = propertyValue (.slice .any xs) k := by simp [propertyValue, unwrap]
 theorem array_prop (t : Ty) (xs : List GoVal) (k : Bytes) :
     propertyValue (.array t xs) k = propertyValue (.slice .any xs) k := by simp [propertyValue, unwrap]
-theorem typed_slice_loop (t : Ty) (xs : List GoVal) : loopItems (.slice t xs) = loopItems (.slice .any xs) := rfl
-theorem array_loop (t : Ty) (xs : List GoVal) : loopItems (.array t xs) = loopItems (.slice .any xs) := rfl
+theorem typed_slice_loop (budget : Int) (t : Ty) (xs : List GoVal) : loopItems budget (.slice t xs) = loopItems budget (.slice .any xs) := rfl
+theorem array_loop (budget : Int) (t : Ty) (xs : List GoVal) : loopItems budget (.array t xs) = loopItems budget (.slice .any xs) := rfl
 theorem typed_slice_prints (t : Ty) (xs : List GoVal) : writeChunksL (.slice t xs) = writeChunksL (.slice .any xs) := by
   simp [writeChunksL]
 theorem array_prints (t : Ty) (xs : List GoVal) : writeChunksL (.array t xs) = writeChunksL (.slice .any xs) := by
@@ -87,7 +87,7 @@ theorem typed_map_prop (vt : Ty) (kvs) (k : Bytes) :
     propertyValue (.map .str vt kvs) k = propertyValue (.map .str .any kvs) k := by simp [propertyValue, unwrap]
 theorem typed_map_index (vt : Ty) (kvs) (i : GoVal) :
     indexValue (.map .str vt kvs) i = indexValue (.map .str .any kvs) i := by simp [indexValue, unwrap]
-theorem typed_map_loop (vt : Ty) (kvs) : loopItems (.map .str vt kvs) = loopItems (.map .str .any kvs) := rfl
+theorem typed_map_loop (budget : Int) (vt : Ty) (kvs) : loopItems budget (.map .str vt kvs) = loopItems budget (.map .str .any kvs) := rfl
 
 /-! ## Ordered YAML maps: lookup and size as a map -/
 
